@@ -381,10 +381,18 @@ RoundTripClauses(s, e) ==
              THEN { Cl("RoundTrip.struct", EqMod(s.liveS, e.post.liveS, RT(e, FALSE))), Cl("RoundTrip.sync", Sync(e.post)) }
              ELSE {})
 
+(* named deviation: the literal text of a self-documenting replacement field (`{x+y=}`) IS the source text of its *)
+(* expression; a pure AST carries no formatting, so putting one there re-writes that text (`x + y=`) and the     *)
+(* Constant in front of the field with it.  Structural equality is then not owed - ReplaceBy.sync (the tree is   *)
+(* what the new source denotes, literal included) is.                                                             *)
+DebugTextFollowsSource(e) == e.debugField /\ e.op \in {"ast", "reparse"}
+
 ReplaceClauses(s, e) ==
   { Cl("ReplaceBy.accepted", e.outcome = "ok"), Cl("ReplaceBy.root", e.rootOk /\ e.post.rootObj = s.rootObj) }
   \cup (IF e.outcome = "ok"
-        THEN { Cl("ReplaceBy.struct", EqMod(s.liveS, e.post.liveS, RT(e, FALSE))), Cl("ReplaceBy.sync", Sync(s) => Sync(e.post)) }
+        THEN (IF DebugTextFollowsSource(e) THEN {}
+              ELSE {Cl("ReplaceBy.struct", EqMod(s.liveS, e.post.liveS, RT(e, FALSE)))})
+             \cup {Cl("ReplaceBy.sync", Sync(s) => Sync(e.post))}
         ELSE { Cl("ReplaceBy.atomic", e.post.liveP = s.liveP /\ e.post.text = s.text) })
 
 OwnSrcClauses(s, e) ==
